@@ -300,7 +300,8 @@ def render (toks : List Tok) : List Rune :=
   match toks with
   | [] => []
   | [t] => t.word
-  | t :: ts => (if t.word ≠ [nl] then t.word else []) ++ renderLoop 1 ts
+  -- newlines up to the first token's line (it need not be on line 1), then as `renderLoop`
+  | t :: ts => List.replicate (t.line - 1) nl ++ (if t.word ≠ [nl] then t.word else []) ++ renderLoop t.line ts
 
 /-- `Normalize(in)` as runes -/
 def normalizeRunes (E : Env) (bs : List UInt8) : List Rune := render (tokenize E false bs).toks
